@@ -60,7 +60,8 @@ RESERVED = {"fun", "match", "with", "let", "if", "then", "else", "do", "at", "fr
 @dataclass(frozen=True)
 class Val:
     term: str
-    ty: str  # OptSample | Sample | OptQ | Q | Bool | Int | None | Exc
+    ty: str  # OptSample | Sample | OptQ | Q | Bool | Int | None | Exc | Lazy
+    origin: tuple | None = None  # (local, attribute): this local is `<local>.<attribute>`, both assigned once
 
 
 @dataclass(frozen=True)
@@ -122,6 +123,7 @@ class Env:
     vars: tuple  # ((python name, Val | Role), …) in binding order
     st: str  # Lean name of the current state
     narrowed: tuple = ()  # ((term, Val), …): Option-typed terms known to be `some <Val.term>`
+    known: tuple = ()  # (((state, slot), Val), …): the field `slot` of the (immutable) state `state` was just written
 
     def get(self, name: str):
         for k, v in self.vars:
@@ -151,6 +153,8 @@ class Ctx:
     exc: Callable  # (kind: Lean term ".recv" | ".fault" | <variable>, Env) -> code
     brk: Callable | None = None  # (Env) -> code
     cont: Callable | None = None
+    counts: dict | None = None  # how often each local of the function this code belongs to is assigned
+    chain: tuple = ()  # helpers being inlined around this code (lexically)
 
 
 @dataclass
@@ -185,6 +189,21 @@ def ann_type(node: ast.expr | None, what: str) -> str:
     if src == "bool":
         return "Bool"
     raise Unsupported(f"{what}: type {src!r}")
+
+
+def store_counts(fn) -> dict:
+    """How often each local name is assigned in the function (parameters: 0)."""
+    c: dict = {}
+    for n in ast.walk(fn):
+        if isinstance(n, ast.Name) and isinstance(n.ctx, (ast.Store, ast.Del)):
+            c[n.id] = c.get(n.id, 0) + 1
+        elif isinstance(n, ast.ExceptHandler) and n.name:
+            c[n.name] = c.get(n.name, 0) + 1
+    return c
+
+
+def has_loop(fn) -> bool:
+    return any(isinstance(n, (ast.While, ast.For, ast.AsyncFor)) for n in ast.walk(fn))
 
 
 # ------------------------------------------------------------------------------------------------ the class
@@ -270,6 +289,23 @@ class ClassInfo:
 
 
 # ------------------------------------------------------------------------------------------------ translator
+def _params(self, name: str) -> list:
+    """The parameters of a method without `self` (instance methods and static methods only)."""
+    fn = self.methods[name]
+    a = fn.args
+    decos = [ast.unparse(d) for d in fn.decorator_list]
+    if a.vararg or a.kwarg or a.kwonlyargs or a.posonlyargs or a.defaults or decos not in ([], ["staticmethod"]):
+        raise Unsupported(f"{name}: unsupported signature")
+    if decos:
+        return list(a.args)
+    if not a.args or a.args[0].arg != "self":
+        raise Unsupported(f"{name}: not an instance method")
+    return list(a.args[1:])
+
+
+ClassInfo.params = _params
+
+
 class PullTranslator(py2lean.Translator):
     """CPS translator of the coroutine subset described in the module docstring."""
 
@@ -322,16 +358,13 @@ class PullTranslator(py2lean.Translator):
         self.specialised[name] = role_args
         fn = self.info.methods[name]
         a = fn.args
-        if a.vararg or a.kwarg or a.kwonlyargs or a.posonlyargs or a.defaults or fn.decorator_list:
-            raise Unsupported(f"{name}: unsupported signature")
-        if not a.args or a.args[0].arg != "self":
-            raise Unsupported(f"{name}: not an instance method")
         roles = dict(role_args)
         params = []
-        for p in a.args[1:]:
+        for p in self.info.params(name):
             if p.arg in roles:
                 continue
-            params.append((p.arg, lean_ident(p.arg), ann_type(p.annotation, f"{name}({p.arg})")))
+            # canonical Lean names: the text does not depend on how the Python parameters are called
+            params.append((p.arg, f"p{len(params) + 1}", ann_type(p.annotation, f"{name}({p.arg})")))
         m = Method(fn, method_lean_name(name), role_args, params, ann_type(fn.returns, f"{name} result"))
         saved = (self.cur, self.counter, self.loops)
         self.in_progress.append(name)
@@ -339,15 +372,27 @@ class PullTranslator(py2lean.Translator):
         env = Env(vars=tuple([(p, Role(r)) for p, r in role_args] + [(py, Val(ln, ty)) for py, ln, ty in params]),
                   st="s0")
         ctx = Ctx(ret=lambda v, e: Leaf(f".ok {atom(self.coerce(v, m.retty, e))} {e.st}"),
-                  exc=lambda k, e: Leaf(f".exc {k} {e.st}"))
+                  exc=lambda k, e: Leaf(f".exc {k} {e.st}"), counts=store_counts(fn))
         body = self.stmts(fn.body, env, ctx, lambda e: ctx.ret(NONE, e))
         sig = " ".join(f"({ln} : {LEAN_TY[ty].strip('()')})" for _, ln, ty in params)
-        doc = f"/-- `{CLASS}.{name}`" + (f" with {', '.join(f'`{p}` = the {self.role_name(r)} receiver' for p, r in role_args)}" if role_args else "") + ". -/"
+        doc = f"/-- `{CLASS}.{name}`" + (f" with {', '.join(f'parameter {[a.arg for a in self.info.params(name)].index(p) + 1} = the {self.role_name(r)} receiver' for p, r in role_args)}" if role_args else "") + ". -/"
         self.defs.append(f"{doc}\ndef {m.lean} {sig + ' ' if sig else ''}(s0 : PSt) : Out {LEAN_TY[m.retty]} :=\n{render(body, '  ')}\n")
         self.in_progress.pop()
         self.cur, self.counter, self.loops = saved
         self.done[key] = m
         return m
+
+    def inline(self, name: str, bound: list, env: Env, ctx: Ctx, k: Callable):
+        """A call of a loop-free helper method: its body in place of the call (arguments bound to the parameters,
+        `return v` continues the caller with `v`, falling off the end with None, raises propagate to the caller)."""
+        if name in ctx.chain or name in self.in_progress:
+            raise Unsupported(f"recursive method {name}")
+        fn = self.info.methods[name]
+        back = lambda e: replace(env, st=e.st, narrowed=e.narrowed)  # noqa: E731  (the caller's locals, the new state)
+        callee_ctx = Ctx(ret=lambda v, e: k(v, back(e)), exc=lambda kind, e: ctx.exc(kind, back(e)),
+                         counts=store_counts(fn), chain=ctx.chain + (name,))
+        callee_env = Env(vars=tuple(bound), st=env.st, narrowed=env.narrowed)
+        return self.stmts(fn.body, callee_env, callee_ctx, lambda e: k(NONE, back(e)))
 
     @staticmethod
     def role_name(r: str) -> str:
@@ -376,7 +421,11 @@ class PullTranslator(py2lean.Translator):
             return self.ev(s.value, env, ctx, lambda v, e: ctx.ret(v, e))
         if isinstance(s, ast.Assign) and len(s.targets) == 1:
             return self.assign(s.targets[0], s.value, env, ctx, nxt)
-        if isinstance(s, ast.AnnAssign) and s.value is not None:
+        if isinstance(s, ast.AnnAssign):
+            if s.value is None:  # a bare declaration `x: T`
+                if not isinstance(s.target, ast.Name):
+                    raise Unsupported("declaration of a non-local")
+                return nxt(env)
             return self.assign(s.target, s.value, env, ctx, nxt)
         if isinstance(s, ast.If):
             return self.cond(s.test, env, ctx,
@@ -404,6 +453,10 @@ class PullTranslator(py2lean.Translator):
             def bind(v, e: Env):
                 if isinstance(v, Val) and v.ty == "Exc":
                     raise Unsupported("exception object used as a value")
+                if (isinstance(v, Val) and isinstance(value, ast.Attribute) and isinstance(value.value, ast.Name)
+                        and value.value.id != "self" and (ctx.counts or {}).get(tgt.id, 0) == 1
+                        and (ctx.counts or {}).get(value.value.id, 0) <= 1 and value.value.id != tgt.id):
+                    v = replace(v, origin=(value.value.id, value.attr))
                 return nxt(e.set(tgt.id, v))
             return self.ev(value, env, ctx, bind)
         if (isinstance(tgt, ast.Attribute) and isinstance(tgt.value, ast.Name) and tgt.value.id == "self"
@@ -412,7 +465,11 @@ class PullTranslator(py2lean.Translator):
 
             def store(v, e: Env):
                 s2 = self.fresh("s")
-                return Let(s2, f"{{ {e.st} with {slot} := {self.coerce(v, 'OptSample', e)} }}", nxt(e.state(s2)))
+                written = v if isinstance(v, Val) and v.ty in ("Sample", "OptSample", "None") else None
+                e2 = e.state(s2)
+                if written is not None:
+                    e2 = replace(e2, known=e2.known + (((s2, slot), replace(written, origin=None)),))
+                return Let(s2, f"{{ {e.st} with {slot} := {self.coerce(v, 'OptSample', e)} }}", nxt(e2))
             return self.ev(value, env, ctx, store)
         raise Unsupported(f"assignment target {ast.unparse(tgt)}")
 
@@ -462,38 +519,55 @@ class PullTranslator(py2lean.Translator):
         if not popped:
             raise Unsupported("a loop that receives nothing (no fuel bound)")
         fuel = " + ".join(f"{env.st}.{'pq' if r == 'P' else 'fq'}.length" for r in popped) + " + 1"
-        # loop-carried locals: every runtime local, widened to its Optional type
-        carried = [(py, v) for py, v in env.vars if isinstance(v, Val) and v.ty != "Exc"]
-        params = []
-        for py, v in carried:
-            ty = WIDEN.get(v.ty, v.ty)
-            if ty == "None":
-                raise Unsupported(f"loop-carried local {py} is only known to be None")
-            params.append((py, lean_ident(py), ty))
-        call_args = " ".join(atom(self.coerce(self.narrowed(v, env), ty, env)) for (py, v), (_, _, ty) in zip(carried, params))
-
-        saved_counter = self.counter
-        self.counter = 0
-        inner_env = Env(vars=tuple([(py, v) for py, v in env.vars if isinstance(v, Role)]
-                                   + [(py, Val(ln, ty)) for py, ln, ty in params]), st="s0")
-
-        def again(e: Env):
-            args = " ".join(atom(self.coerce(self.narrowed(e.get(py), e), ty, e)) for py, _, ty in params)
-            return Leaf(f"{name} {args + ' ' if args else ''}fuel {e.st}")
-
-        loop_ctx = replace(ctx, brk=nxt, cont=again)
-        self.in_loop = True
-        body = self.cond(s.test, inner_env, ctx,
-                         lambda e: self.stmts(s.body, e, loop_ctx, again),
-                         lambda e: nxt(e))
-        self.in_loop = False
-        sig = " ".join(f"({ln} : {LEAN_TY[ty].strip('()')})" for _, ln, ty in params)
+        # Locals visible in the loop.  `x = y.<attr>` (both assigned once, neither in the loop) is re-read from `y` where
+        # the loop uses it; of the others only those the loop (or the rest of the method after it) reads are parameters,
+        # under canonical names, widened to their Optional type.
+        assigned = {n.id for st in s.body for n in ast.walk(st) if isinstance(n, ast.Name) and isinstance(n.ctx, ast.Store)}
+        runtime = [(py, v) for py, v in env.vars if isinstance(v, Val) and v.ty not in ("Exc", "Lazy")]
+        names_rt = {py for py, _ in runtime}
+        lazies = [(py, v.origin) for py, v in runtime
+                  if v.origin and v.origin[0] in names_rt and py not in assigned and v.origin[0] not in assigned]
+        lazy_names = {py for py, _ in lazies}
+        carried_lazy = [(py, v) for py, v in env.vars if isinstance(v, Val) and v.ty == "Lazy"]
+        candidates = [(py, v) for py, v in runtime if py not in lazy_names and WIDEN.get(v.ty, v.ty) != "None"]
         assert self.cur is not None
+        saved_counter = self.counter
+        snapshot = (len(self.defs), self.loops, dict(self.loop_defs))
+
+        def build(cands: list, rec_marker: bool):
+            self.counter = 0
+            params = [(py, f"q{i + 1}", WIDEN.get(v.ty, v.ty)) for i, (py, v) in enumerate(cands)]
+            inner_env = Env(vars=tuple([(py, v) for py, v in env.vars if isinstance(v, Role)]
+                                       + [(py, Val(ln, ty)) for py, ln, ty in params]
+                                       + [(py, Val("", "Lazy", origin=o)) for py, o in lazies]
+                                       + carried_lazy), st="s0")
+
+            def again(e: Env):
+                if rec_marker:
+                    return Leaf(f"<rec> fuel {e.st}")
+                args = " ".join(atom(self.coerce(self.narrowed(e.get(py), e), ty, e)) for py, _, ty in params)
+                return Leaf(f"{name} {args + ' ' if args else ''}fuel {e.st}")
+
+            loop_ctx = replace(ctx, brk=nxt, cont=again)
+            self.in_loop = True
+            body = self.cond(s.test, inner_env, ctx,
+                             lambda e: self.stmts(s.body, e, loop_ctx, again),
+                             lambda e: nxt(e))
+            self.in_loop = False
+            return params, render(body, '    ')
+
+        params1, text1 = build(candidates, True)
+        used = [(py, v) for (py, v), (_, ln, _) in zip(candidates, params1) if re.search(rf"\b{ln}\b", text1)]
+        del self.defs[snapshot[0]:]
+        self.loops, self.loop_defs = snapshot[1], snapshot[2]
+        params, body_text = build(used, False)
+        call_args = " ".join(atom(self.coerce(self.narrowed(v, env), ty, env)) for (py, v), (_, _, ty) in zip(used, params))
+        sig = " ".join(f"({ln} : {LEAN_TY[ty].strip('()')})" for _, ln, ty in params)
         text = (
-            f"/-- the `while` loop at line {s.lineno} of `{self.cur.fn.name}` followed by the rest of that method;"
+            f"/-- a `while` loop of `{self.cur.fn.name}` followed by the rest of that method;"
             f" `.block` when the fuel runs out. -/\n"
             f"def {name} {sig + ' ' if sig else ''}: Nat → PSt → Out {LEAN_TY[self.cur.retty]}\n"
-            f"  | 0, _ => .block\n  | fuel + 1, s0 =>\n{render(body, '    ')}\n")
+            f"  | 0, _ => .block\n  | fuel + 1, s0 =>\n{body_text}\n")
         self.counter = saved_counter
         # the statements after an `if` are copied into both branches: the same loop (with the same continuation) is
         # then generated twice; keep one definition
@@ -532,12 +606,19 @@ class PullTranslator(py2lean.Translator):
         if isinstance(n, ast.Name):
             if n.id == "self":
                 raise Unsupported("bare self")
-            return k(env.get(n.id), env)
+            v = env.get(n.id)
+            if isinstance(v, Val) and v.ty == "Lazy":  # `<local>.<attribute>`, re-read from the local inside a loop
+                base, attr = v.origin
+                return self.getattr_(env.get(base), attr, env, ctx, k)
+            return k(v, env)
         if isinstance(n, ast.Attribute):
             if isinstance(n.value, ast.Name) and n.value.id == "self":
                 if n.attr in self.info.role_fields:
                     return k(Role(self.info.role_fields[n.attr]), env)
                 if n.attr in self.info.slots:
+                    for key, kv in env.known:  # reading back what was just stored
+                        if key == (env.st, self.info.slots[n.attr]):
+                            return k(kv, env)
                     return k(Val(f"{env.st}.{self.info.slots[n.attr]}", "OptSample"), env)
                 raise Unsupported(f"field self.{n.attr}")
             return self.ev(n.value, env, ctx, lambda v, e: self.getattr_(v, n.attr, e, ctx, k))
@@ -590,17 +671,24 @@ class PullTranslator(py2lean.Translator):
             fn = self.info.methods[f.attr]
             if isinstance(fn, ast.AsyncFunctionDef) != awaited:
                 raise Unsupported(f"self.{f.attr}: await/async mismatch")
-            names = [a.arg for a in fn.args.args[1:]]
+            names = [a.arg for a in self.info.params(f.attr)]
             if len(n.args) > len(names):
                 raise Unsupported("too many arguments")
             exprs: list = list(zip(names, n.args)) + [(kw.arg, kw.value) for kw in n.keywords]
             if sorted(p for p, _ in exprs) != sorted(names):
                 raise Unsupported(f"arguments of self.{f.attr}")
+            # helpers without loops are inlined; the methods the tie talks about (and helpers with loops) are functions
+            inline = f.attr not in REQUIRED and not has_loop(fn)
 
             def args_then(i: int, got: list, e: Env):
                 if i < len(exprs):
                     return self.ev(exprs[i][1], e, ctx, lambda v, e2: args_then(i + 1, got + [(exprs[i][0], v)], e2))
                 bound = dict(got)
+                if inline:
+                    return self.inline(f.attr, [(p, replace(bound[p], origin=None) if isinstance(bound[p], Val)
+                                                 else bound[p]) for p in names], e, ctx, k)
+                if any(isinstance(v, Val) and v.ty == "Exc" for v in bound.values()):
+                    raise Unsupported("exception object passed to a method")
                 role_args = tuple((p, bound[p].role) for p in names if isinstance(bound[p], Role))
                 m = self.method(f.attr, role_args)
                 vals = " ".join(atom(self.coerce(self.narrowed(bound[py], e), ty, e)) for py, _, ty in m.params)
